@@ -467,6 +467,12 @@ func (e *Enc) freshVal(st *State, hint string, t types.Type) *Val {
 			switch lf.Path[strings.LastIndex(lf.Path, "."):] {
 			case ".len", ".off":
 				e.assert("(<= 0 " + n + ")")
+				if strings.HasSuffix(lf.Path, ".len") {
+					// len() is an int
+					e.assert("(<= " + n + " 9223372036854775807)")
+				}
+			case ".cap":
+				e.assert("(<= " + n + " 9223372036854775807)")
 			}
 		}
 	}
